@@ -416,10 +416,13 @@ func (l *Lexer) readString(delimiter byte) string {
 // writeEscaped appends the character denoted by a \x, \u or \u{} escape sequence.
 // A character that cannot stand for itself inside the emitted string literal
 // (double quote, backslash, control characters and line terminators, surrogates)
-// is kept as the escape sequence written in the source.
+// is kept as the escape sequence written in the source. So is a decimal digit:
+// written out, it would extend a preceding \0 (or legacy octal) escape, which
+// is kept as written too ("\0\x31" must not become "\01").
 func writeEscaped(result *strings.Builder, value int, escape string) {
 	switch {
 	case value < 0x20, value == 0x7F, value == '"', value == '\\',
+		value >= '0' && value <= '9',
 		value == 0x2028, value == 0x2029, value >= 0xD800 && value <= 0xDFFF:
 		result.WriteString(escape)
 	default:
